@@ -1,30 +1,305 @@
-"""C09 (Writer half) — Close, use-after-close and termination of kafka.Writer (DESIGN.md section 7).
-Model coq/Model/Writer.v, theorems coq/Properties/C09.v; the run is shared with the other
-Writer checks (checks/writer_common.py)."""
+"""C09 — Close, cancellation and use-after-close behave and terminate in every schedule
+(DESIGN.md section 7).
+
+Writer half: model coq/Model/Writer.v; the run is shared with the other Writer checks
+(checks/writer_common.py, harness/cmd/writer).
+
+Reader / ConsumerGroup / Transport half: model coq/Model/Lifecycle.v, proofs coq/Proofs/Lifecycle*.v,
+theorems in the second part of coq/Properties/C09.v; correspondence = harness/cmd/c09r (REAL kafka.Reader
+on harness/groupfake and harness/fetchfake, real kafka.Transport/Client) judged by the extracted
+monitors and compared with runs of the extracted model (ocaml/c09r_driver.ml).
+
+ops of the second run (go result | model result):
+  e2e   concurrent lifecycle program; go = ok | HANG:… | LEAK:… | PANIC:…; model = ok | FAIL:<monitor names>
+        (late_fetch, late_commit = the two clauses of mon_after_close; silent; leave; leave_strict)
+  det   deterministic single-threaded scenario: the results of every step, on both sides
+  cac   n CommitMessages calls after Close returned: <cp>:<ctx>:<nil>:<oth> counts; the model echoes
+        them when every observed outcome is one the model allows
+  nlv   deterministic replay of "no LeaveGroup after a failed re-join": lv=<LeaveGroup count>
+"""
+import hashlib, json, os
 import checklib as L
 from checks import writer_common as W
 
 PROP = "C09"
 TRUSTED_BASE = list(W.COMMON_TRUSTED) + [
-    "only the Writer half of C09 is covered here (Reader / ConsumerGroup lifecycle: separate model); bounded time is abstracted to absence of stuck states; the termination variant is not proved",
-    "a single Close call per Writer is modelled",
+    "Writer half: a single Close call per Writer is modelled; bounded time is abstracted to absence of stuck states plus the termination measure",
+    "Reader half: hand-written atomic-step model coq/Model/Lifecycle.v of /repo/reader.go (Reader shell, run(cg), commitLoop*, unsubscribe, "
+    "partition reader goroutines, readLag), of ConsumerGroup.run / nextGeneration / leaveGroup / Generation.Start+close in /repo/consumergroup.go and of "
+    "the two context-aware waits of connPool.roundTrip in /repo/transport.go; that Go's mutex, channels (buffered r.msgs / r.commits, capacity-1 errch), "
+    "select (uniform choice among ready branches: modelled as nondeterministic choice, the 'racing' branches are classified by is_race), "
+    "sync.WaitGroup, sync.Once and context cancellation behave as the labels assume is modelled, not verified (data races: C10)",
+    "Reader half abstractions (header of Model/Lifecycle.v): Generation's routines counter / joined channel are abstracted to 'gen.close() waits for every "
+    "accounted function' (that is C15_accounting over the detailed Model/ConsumerGroup.v); partition watchers are not modelled; r.join = number of partition "
+    "readers not yet exited; message contents dropped (an element of r.msgs is a version stamp); a network exchange bounded by a deadline is one label carrying "
+    "its outcome (time-out included) — the hard-coded 10 s readOffsets deadline and ConsumerGroupConfig.Timeout (5 s, not settable through ReaderConfig) are such bounds",
+    "Reader half tie: harness/cmd/c09r runs the real kafka.Reader against harness/groupfake (wire-level broker + coordinator; requests journalled through its "
+    "FaultFunc in the broker's single history) and harness/fetchfake (silent / refusing broker), and a real kafka.Client+Transport; one globally ordered timeline "
+    "per scenario (call begin / context end / return / Close begin / Close return / request arrival / member id handed out) is judged by mon_late_fetch, "
+    "mon_late_commit, mon_silent, mon_leave, mon_leave_strict — the definitions the theorems are about, extracted with ExtrOcamlBasic only; deterministic "
+    "scenarios are compared result by result with a run of the extracted step function; hangs are detected by per-call watchdogs (8 s and more), goroutine "
+    "(stacks created by kafka-go) and client-connection census after the last Close; ocaml/c09r_driver.ml (~230 lines) and the harness (~2700 lines of Go) are trusted",
+    "a request counts as 'after Close returned' by its position in the timeline: the journal entry is made when the fake has decoded the request, the Close "
+    "return when Reader.Close returned in the harness goroutine",
 ]
 ASSUMPTIONS = [
     "fairness: every enabled non-environment step (goroutine, timer, broker answer or time-out) is eventually taken",
+    "Reader half: additionally a select whose cancellation branch is ready eventually takes it (Go's select is uniformly random), and periodic tickers fire finitely often per unit of time; every network exchange is bounded by a deadline of the code (dial, read and write deadlines set by reader.go / consumergroup.go)",
+    "Reader half: WatchPartitionChanges is off in the model (the harness switches it on in some scenarios; the monitors do not depend on it)",
 ]
+
+KEY_COMMIT = "C09-commit-after-close-enqueues"
+KEY_FETCH = "C09-fetch-after-close-buffered"
+KEY_LEAVE = "C09-no-leave-after-failed-rejoin"
+WHAT = {
+    KEY_COMMIT: "Reader.CommitMessages after (or racing with) Close can enqueue its request into r.commits instead of returning io.ErrClosedPipe: "
+                "with CommitInterval = 0 the call then blocks until its own context ends (forever with context.Background()), with CommitInterval > 0 it "
+                "returns nil for a commit that is never sent (select in CommitMessages has no priority for <-r.stctx.Done(); theorem C09_r_after_close_commit_refuted)",
+    KEY_FETCH: "Reader.FetchMessage / ReadMessage after Close returned deliver the messages (and error items) still buffered in r.msgs before io.EOF; in group "
+               "mode ReadMessage then fails with io.ErrClosedPipe in its commit and the message is dropped (theorem C09_r_after_close_fetch_refuted)",
+    KEY_LEAVE: "Reader.Close / ConsumerGroup.Close send no LeaveGroup for the member id the coordinator had handed out when a later JoinGroup request failed "
+               "(joinGroup returns \"\" on every error, the id is forgotten; the member stays in the group until its session times out; theorem "
+               "C09_r_close_post_leave_strict_refuted)",
+}
 
 
 def setup():
     W.setup()
+    L.go_build("c09r")
+    L.ocaml_build("c09r", extract_v="Extract/C09R.v", driver="c09r_driver.ml")
 
+
+# ----------------------------------------------------------------------------- Reader half
+
+_rcache = {}
+
+
+def reader_run(ctx):
+    key = (ctx.seed, ctx.tier)
+    if key in _rcache:
+        return _rcache[key]
+    gobin = L.go_build("c09r")
+    model = L.ocaml_build("c09r", extract_v="Extract/C09R.v", driver="c09r_driver.ml")
+    n = ctx.scale(150, 1200)
+    rc, out, err, dt = L.sh([gobin, "-seed", str(ctx.seed), "-n", str(n)], timeout=ctx.scale(240, 2400))
+    if rc != 0:
+        raise L.Fail("correspondence", "harness cmd/c09r crashed or timed out (a hang must be reported per scenario, not kill the run)",
+                     (out[-1500:] + err[-2500:]))
+    cases = L.parse_cases(out)
+    lines = []
+    for c in cases:
+        c["n"] = n
+        lines.append(c["line"] + (" | " + c["go"] if c["op"] in ("cac", "nlv") else ""))
+    res = L.run_model(model, "\n".join(lines) + "\n", timeout=1200)
+    for c in cases:
+        c["model"] = res.get(c["id"])
+    r = dict(cases=cases, go_time=dt, n=n)
+    _rcache[key] = r
+    return r
+
+
+def _tags(c):
+    return [t for t in c["feats"].split(",") if t]
+
+
+def _field(s, name):
+    for part in s.split(","):
+        if part.startswith(name + "="):
+            return part[len(name) + 1:]
+    return None
+
+
+def reader_failures_of_case(c):
+    """[(layer, what, key)] for one case of the c09r run."""
+    op, go, model, tags = c["op"], c["go"], c.get("model"), _tags(c)
+    out = []
+    if model is None or model.startswith("ERR:") or model == "?":
+        return [("correspondence", f"model driver could not evaluate a c09r {op} case: {model}", None)]
+    if op == "e2e":
+        for part in go.split("+"):
+            if part == "ok":
+                continue
+            if part.startswith("HANG:call") and "commit-never" in tags:
+                out.append(("property", WHAT[KEY_COMMIT], KEY_COMMIT))
+            elif part.startswith("HANG:worker"):
+                out.append(("correspondence", "a c09r worker process overran its deadline: " + part, None))
+            elif part.startswith("HANG:close"):
+                out.append(("property", "Reader.Close (or CloseIdleConnections) did not return within the watchdog: " + part, None))
+            elif part.startswith("HANG"):
+                out.append(("property", "a blocked call did not return within the watchdog although its context ended or the Reader was closed: " + part, None))
+            elif part.startswith("PANIC"):
+                out.append(("property", "kafka-go panicked during a lifecycle scenario: " + part[:300], None))
+            elif part.startswith("LEAK"):
+                if c["args"].startswith("t "):
+                    # kafka.Transport: outside the text of C09 (which speaks of Writer, Reader, ConsumerGroup); reported as an observation
+                    continue
+                out.append(("property", "goroutines or connections of a Reader / ConsumerGroup outlive Close beyond the grace period: " + part
+                            + " " + ",".join(t for t in tags if t.startswith("leak=")), None))
+            else:
+                out.append(("correspondence", "unknown verdict of harness cmd/c09r: " + part[:200], None))
+        if model != "ok":
+            names = model[5:].split("+") if model.startswith("FAIL:") else [model]
+            excused = any(t in ("leave-faulted", "evicted") for t in tags)
+            for nm in names:
+                if nm == "late_fetch":
+                    out.append(("property", WHAT[KEY_FETCH], KEY_FETCH))
+                elif nm == "late_commit":
+                    out.append(("property", WHAT[KEY_COMMIT], KEY_COMMIT))
+                elif nm == "silent":
+                    out.append(("property", "a Heartbeat / OffsetCommit / Fetch / JoinGroup / SyncGroup request reached the broker after Reader.Close had returned", None))
+                elif nm == "leave":
+                    if not excused:
+                        out.append(("property", "Reader.Close returned without a LeaveGroup request for the member id the coordinator had handed out "
+                                                "(no fault on the leave path, member not evicted, no re-join attempted)", None))
+                elif nm == "leave_strict":
+                    if "leave" in names or excused:
+                        continue
+                    jc = [t for t in tags if t.startswith("member-error=join:")]
+                    if jc and all(t == "member-error=join:19" for t in jc):
+                        continue    # UnknownMemberID: the coordinator does not hold the member any more
+                    out.append(("property", WHAT[KEY_LEAVE], KEY_LEAVE))
+                else:
+                    out.append(("correspondence", "unknown verdict of the c09r model driver: " + nm, None))
+        return out
+    if op == "det":
+        if go.startswith(("HANG", "PANIC")):
+            out.append(("property", "deterministic lifecycle scenario: " + go[:200], None))
+        elif go != model:
+            out.append(("correspondence", f"deterministic lifecycle scenario: implementation {go} / run of the model {model}", None))
+        res = go.split(",")
+        if "D" in res and "msg" in res[res.index("D"):]:
+            out.append(("property", WHAT[KEY_FETCH], KEY_FETCH))
+        return out
+    if op == "cac":
+        if go.startswith(("HANG", "PANIC")):
+            out.append(("property", "CommitMessages-after-Close scenario: " + go[:200], None))
+            return out
+        if go != model:
+            out.append(("correspondence", f"CommitMessages after Close: implementation outcomes {go} (cp:ctx:nil:oth), model says {model}", None))
+        try:
+            cp, cx, nl, ot = [int(x, 16) for x in go.split(":")]
+            if cx + nl + ot > 0:
+                out.append(("property", WHAT[KEY_COMMIT], KEY_COMMIT))
+        except ValueError:
+            out.append(("correspondence", "unreadable cac result " + go[:100], None))
+        return out
+    if op == "nlv":
+        if go.startswith(("HANG", "PANIC")):
+            out.append(("property", "failed-re-join scenario: " + go[:200], None))
+            return out
+        lv, mlv = _field(go, "lv"), _field(model or "", "lv")
+        if _field(go, "rejoin") in (None, "0"):
+            out.append(("correspondence", "failed-re-join scenario did not reach the faulted re-join: " + go[:200], None))
+        elif lv != mlv:
+            out.append(("correspondence", f"failed-re-join scenario: implementation {go}, model {model}", None))
+        if lv == "0" and _field(go, "rejoin") not in (None, "0"):
+            out.append(("property", WHAT[KEY_LEAVE], KEY_LEAVE))
+        return out
+    return [("correspondence", "unknown op of cmd/c09r: " + op, None)]
+
+
+R_TRIVIAL = {"fake=groupfake", "fake=fetchfake", "kind=ok", "kind=idle", "det", "cac", "nlv"}
+
+
+def reader_half(ctx):
+    r = reader_run(ctx)
+    cases = r["cases"]
+    by_key, failures, seen = {}, [], set()
+    failing = 0
+    for c in cases:
+        fs = reader_failures_of_case(c)
+        if fs:
+            failing += 1
+        for (layer, what, key) in fs:
+            k = (layer, what, key)
+            by_key[k] = by_key.get(k, 0) + 1
+            if k in seen:
+                continue
+            seen.add(k)
+            replay_cmd = f"build/bin/c09r -seed {ctx.seed} -n {r['n']} -only {c['id']}"
+            f = dict(layer=layer, what=what, key=key,
+                     detail=json.dumps(dict(case=c["line"][:6000], go=c["go"][:300], model=str(c.get("model"))[:300],
+                                            feats=c["feats"][:600], replay=replay_cmd)))
+            f["input"] = (dict(half="reader", case=c["line"], go=c["go"], model=c.get("model"), feats=c["feats"],
+                               seed=ctx.seed, n=r["n"], id=c["id"]) if layer == "property" else None)
+            failures.append(f)
+    for f in failures:
+        f["what"] = f["what"] + f" [{by_key[(f['layer'], f['what'], f['key'])]} scenario(s) of this run]"
+    hist, dn = {}, set()
+    for c in cases:
+        for t in (_tags(c) or [""]):
+            if t.startswith(("oth=", "leak=", "qcap=", "buffered=")):
+                t = t.split("=")[0]
+            hist["r." + c["op"] + ":" + t] = hist.get("r." + c["op"] + ":" + t, 0) + 1
+        if set(_tags(c)) - R_TRIVIAL:
+            dn.add(hashlib.sha1((c["op"] + " " + c["args"]).encode()).hexdigest())
+    e2e = [c for c in cases if c["op"] == "e2e"]
+    samples = [c["line"][:400] + " | " + c["go"][:60] + " | " + c["feats"][:160]
+               for c in ([x for x in e2e if x["args"].startswith("g")][:2] + [x for x in e2e if x["args"].startswith("p")][:1]
+                         + [x for x in cases if x["op"] == "det"][:1])]
+    tleaks = [c for c in e2e if c["args"].startswith("t ") and "LEAK" in c["go"]]
+    return dict(
+        evaluations=len(cases), distinct_nontrivial=len(dn), hist=hist, samples=samples, failures=failures,
+        rule="Reader half: cases from the same PRNG seed in harness/cmd/c09r: concurrent lifecycle programs on the real kafka.Reader (partition mode and group "
+             "mode; 1-4 callers issuing FetchMessage / ReadMessage / CommitMessages with contexts never / later / already cancelled; one or two Close calls at a "
+             "random moment or on an event; new calls after the last Close; brokers slow, silent, refusing, dropping connections, answering error codes; "
+             "rebalances by a second Reader, ForceRebalance, Evict; ReadLag on/off; CommitInterval 0 / >0; QueueCapacity 1..100) and on a real kafka.Transport "
+             "(round trips with contexts cancelled while the broker is silent); deterministic single-threaded scenarios (fetch k of N, commit, Close, fetch again) "
+             "compared with the model's run; n CommitMessages after Close; an e2e case counts when the implementation ran it under watchdogs and the extracted "
+             "monitors judged its timeline; non-trivial = any feature tag beyond the fake used and kind ok/idle; distinct by hash of op+args.",
+        extra=dict(reader_go_run_s=round(r["go_time"], 1), reader_scenarios=len(cases), reader_e2e=len(e2e),
+                   reader_det_model_runs=sum(1 for c in cases if c["op"] == "det"),
+                   reader_failing_case_count=failing,
+                   reader_leave_excused=sum(1 for c in e2e if "leave" in str(c.get("model")) and any(t in ("leave-faulted", "evicted") for t in _tags(c))),
+                   transport_observation=(f"{len(tleaks)} Transport scenario(s): after a round trip was abandoned through its context while the broker stays silent, "
+                                          "the connection goroutine (transport.go (*conn).run -> roundTrip -> ReadResponse) keeps reading WITHOUT a deadline when the "
+                                          "context had none, and CloseIdleConnections does not close that busy connection: goroutine and connection stay as long as the "
+                                          "broker is silent. Outside the text of C09 (Writer / Reader / ConsumerGroup), not counted as a violation; example: "
+                                          + (tleaks[0]["line"][:200] + " | " + tleaks[0]["go"] if tleaks else "-"))))
+
+
+# ----------------------------------------------------------------------------- the check
 
 def correspondence(ctx):
-    return W.correspondence_for(PROP, ctx, "C09 judges: Close / call watchdogs, C09_after_close on every history, and the f3 regression scenario (a blocking BalancerFunc forces batchMessages after Close: the call must return io.ErrClosedPipe and Close must return).")
+    w = W.correspondence_for(PROP, ctx, "C09 judges: Close / call watchdogs, C09_after_close on every history, and the f3 regression scenario (a blocking BalancerFunc forces batchMessages after Close: the call must return io.ErrClosedPipe and Close must return).")
+    rd = reader_half(ctx)
+    hist = dict(w["hist"])
+    hist.update(rd["hist"])
+    extra = dict(w.get("extra", {}))
+    extra.update(rd["extra"])
+    return dict(evaluations=w["evaluations"] + rd["evaluations"],
+                distinct_nontrivial=w["distinct_nontrivial"] + rd["distinct_nontrivial"],
+                hist=hist, samples=w["samples"][:4] + rd["samples"][:4],
+                failures=w["failures"] + rd["failures"],
+                rule="Writer half: " + w["rule"] + " || " + rd["rule"],
+                extra=extra)
 
 
 def search(ctx, violations):
-    return W.search_for(PROP, ctx, violations)
+    found = W.search_for(PROP, ctx, violations)
+    if found:
+        return found
+    try:
+        rd = reader_half(ctx)      # ctx.seed was advanced by search_for
+    except L.Fail:
+        return None
+    for f in rd["failures"]:
+        if f.get("input"):
+            return f["input"]
+    return None
 
 
 def replay(ctx, payload):
-    return W.replay(ctx, payload)
+    inp = payload.get("input")
+    if not inp or inp.get("half") != "reader":
+        return W.replay(ctx, payload)
+    print("replay case:", inp["case"][:3000])
+    print("implementation result at the time:", inp.get("go"), " model verdict:", inp.get("model"))
+    model = L.ocaml_build("c09r", extract_v="Extract/C09R.v", driver="c09r_driver.ml")
+    line = inp["case"] + (" | " + inp.get("go", "") if " cac " in inp["case"] or " nlv " in inp["case"] else "")
+    print("model verdict now:", L.run_model(model, line + "\n"))
+    gobin = L.go_build("c09r")
+    rc, out, err, _ = L.sh([gobin, "-seed", str(inp.get("seed", ctx.seed)), "-n", str(inp.get("n", 150)), "-only", str(inp["id"])], timeout=600)
+    print("implementation now:", out.strip()[:3000])
+    print(err[-3000:])
+    return 1
